@@ -112,6 +112,7 @@ func Load(cfg Config) (*Program, error) {
 	}
 	prog, _ := ssautil.AllPackages(roots, ssa.InstantiateGenerics)
 	prog.Build()
+	canonicaliseComparisons(prog)
 	sp := map[string]*ssa.Package{}
 	for _, p := range prog.AllPackages() {
 		if p.Pkg != nil {
@@ -260,4 +261,34 @@ func FuncName(fn *ssa.Function) string {
 	s = strings.ReplaceAll(s, "(", "")
 	s = strings.ReplaceAll(s, ")", "")
 	return s
+}
+
+// canonicaliseComparisons rewrites, in the SSA of the repository's own functions, every comparison whose LEFT operand
+// is a constant and whose right operand is not (`0 < len(x)`, `nil != err`, `CRC32 == t`) into the mirrored form with
+// the constant on the right (`len(x) > 0`, ...). The two spellings are the same program; the rules then need to know
+// one. Operand sets do not change, so referrer lists stay valid.
+func canonicaliseComparisons(prog *ssa.Program) {
+	mirror := map[token.Token]token.Token{token.EQL: token.EQL, token.NEQ: token.NEQ, token.LSS: token.GTR, token.GTR: token.LSS, token.LEQ: token.GEQ, token.GEQ: token.LEQ}
+	for fn := range ssautil.AllFunctions(prog) {
+		if fn.Pkg == nil || fn.Pkg.Pkg == nil || !strings.HasPrefix(fn.Pkg.Pkg.Path(), ModPath) {
+			continue
+		}
+		for _, b := range fn.Blocks {
+			for _, in := range b.Instrs {
+				bo, ok := in.(*ssa.BinOp)
+				if !ok {
+					continue
+				}
+				m, isCmp := mirror[bo.Op]
+				if !isCmp {
+					continue
+				}
+				_, lc := bo.X.(*ssa.Const)
+				_, rc := bo.Y.(*ssa.Const)
+				if lc && !rc {
+					bo.X, bo.Y, bo.Op = bo.Y, bo.X, m
+				}
+			}
+		}
+	}
 }
